@@ -19,7 +19,9 @@ var long = strings.Repeat("a", 10000)
 
 var hostileStrings = []string{"", "(", "[a-", "*", "(?P<", `\`, "a|", "|", "^$", ".", ".*", long, "99999999999999999999", "-99999999999999999999", "1:2:3", ":", "=", "k=", "=v", "k=1:",
 	"99999999999999999999kb:", ":99999999999999999999", "1kb:1s", "0", "-1", "1e999", "NaN", "\x00", "\xff\xfe", "a b", " ", "//:", "x //: y", ">", "%s%d%n", "k=(", "bytes=:", "bytes=1mb:2kb",
-	"+5", "5+", "1b", "1zz", "zz1", "tag,(", ",", ",,", "$", "main", "k", "bytes", "k:v", "1:", ":1", "4096b", "(?i)MAIN", "[[:alpha:]]+", "\\p{Greek}", "(a*)*b", "a{1000}", "a{2,1}"}
+	"+5", "5+", "1b", "1zz", "zz1", "tag,(", ",", ",,", "$", "main", "k", "bytes", "k:v", "1:", ":1", "4096b", "(?i)MAIN", "[[:alpha:]]+", "\\p{Greek}", "(a*)*b", "a{1000}", "a{2,1}",
+	// multi-byte text around the lengths at which reports shorten what they print (80 bytes / 80 characters)
+	strings.Repeat("界", 25), strings.Repeat("界", 27), strings.Repeat("界", 40), "main|" + strings.Repeat("é", 50), strings.Repeat("a", 79) + "界", strings.Repeat("x", 81), strings.Repeat("\xff", 90), strings.Repeat("😀", 21)}
 
 var stringOptions = []string{"focus", "ignore", "hide", "show", "show_from", "prune_from", "tagfocus", "tagignore", "tagshow", "taghide", "tagroot", "tagleaf", "unit", "sample_index", "source_path", "trim_path", "symbolize"}
 var numOptions = map[string][]string{
